@@ -3,6 +3,7 @@ package tcp
 import (
 	"context"
 	"crypto/tls"
+	"errors"
 	"net"
 	"sync"
 	"time"
@@ -22,6 +23,10 @@ func (f HandlerFunc) ServeTCP(in net.Conn) error {
 	return f(in)
 }
 
+// ErrServerClosed is returned by Serve when the server has been
+// closed or shut down before.
+var ErrServerClosed = errors.New("tcp: Server closed")
+
 // Server implements a generic TCP server.
 type Server struct {
 	Addr         string
@@ -32,6 +37,7 @@ type Server struct {
 	mu        sync.Mutex
 	listeners []net.Listener
 	conns     map[net.Conn]bool
+	closed    bool
 }
 
 func (s *Server) ListenAndServe() error {
@@ -61,6 +67,10 @@ func (s *Server) Serve(l net.Listener) error {
 	defer l.Close()
 
 	s.mu.Lock()
+	if s.closed {
+		s.mu.Unlock()
+		return ErrServerClosed
+	}
 	s.listeners = append(s.listeners, l)
 	s.mu.Unlock()
 
@@ -96,6 +106,7 @@ func (s *Server) Serve(l net.Listener) error {
 
 func (s *Server) closeListeners() error {
 	s.mu.Lock()
+	s.closed = true
 	for _, l := range s.listeners {
 		l.Close()
 	}
